@@ -99,6 +99,41 @@ def rule_positional(ctx, R):
         ctx.check(bool(floor_ok), R, b, kind + ':confidence-raised-to-minimum', detail,
                   'the detection confidence is not raised to the configured minimum (conf = max(confidence, '
                   '%s)): %s' % (minconf, detail or 'pattern not found'))
+        # ---- the confidence is the DETECTION's (candidate's), never the track's
+        role = {}          # param index -> 'candidate' | 'track'   (helper form: roles come from the call site)
+        if kind != 'sort':
+            for cb, call in F.callers().get(b.npath, []):
+                ceb = ExprBuilder(cb)
+                for k in range(len(call.args)):
+                    a = ceb.arg(call, k)
+                    if a.has_field('candidate_observation') and not a.has_field('track_observation'):
+                        role[k + 1] = 'candidate'
+                    elif a.has_field('track_observation') and not a.has_field('candidate_observation'):
+                        role[k + 1] = 'track'
+        reads = {}
+        for i in sorted(b.live_blocks()):
+            for si, s in enumerate(b.blocks[i]['st']):
+                if s['k'] != 'assign':
+                    continue
+                v = eb._rvalue(s['rv'], (), 0, (i, si))
+                for e in v.walk():
+                    if (e.kind == 'place' and e.fields[-1:] == ('confidence',)) or (
+                            e.kind in ('call', 'agg') and e.proj[-1:] == ('confidence',)):
+                        if e.has_field('candidate_observation') and not e.has_field('track_observation'):
+                            r = 'candidate'
+                        elif e.has_field('track_observation') and not e.has_field('candidate_observation'):
+                            r = 'track'
+                        else:
+                            roots = {pl.root[1] for pl in e.places() if pl.root[0] == 'param'}
+                            rs = {role.get(k) for k in roots if k != 1}
+                            r = rs.pop() if len(rs) == 1 else None
+                        reads[repr(e)] = (r, s['ln'])
+        n += 1
+        bad = {k: v for k, v in reads.items() if v[0] != 'candidate'}
+        ctx.check(bool(reads) and not bad, R, b, kind + ':confidence-of-the-detection', '; '.join(sorted(reads)),
+                  'the positional metric weighs with a confidence that is not the candidate detection\'s: %s' % (
+                      {k: v[0] or 'unknown source' for k, v in bad.items()} or 'no confidence read found'),
+                  (list(bad.values()) or [(None, None)])[0][1])
         # ---- too_far guard on every Some result
         tf = False
         somes = 0
